@@ -22,6 +22,8 @@ func checkC03(c *Ctx) {
 	c.Rule("C03-R3", "per table: prefix-free; capability→(key,mod) agrees with the field's name; xterm modifier suffixes pair with the xterm bit masks; control bytes map to Ctrl keys; every sequence reachable before the rune parser")
 	c.Rule("C03-R4", "every Key* capability that some entry populates is read by the table construction")
 	c.Rule("C03-R5", "NewEventKey turns control runes and DEL into key codes (Ctrl modifier except Backspace/Tab/Esc/Enter)")
+	c.Rule("C03-R7", "the bytes of a key sequence reach the matcher as they were read (a chunk queued for the main loop owns its backing array)")
+	c.Expect("C03-R7", 1)
 	c.Rule("C03-R6", "the pending-Alt flag survives between scans: it is a field of the screen, set only where the collect loop consumes a lone ESC, and tested-and-cleared by the rune and function-key parsers and the expiry path")
 	c.Expect("C03-R6", 3)
 	c.Expect("C03-R1", 3)
@@ -181,6 +183,7 @@ func checkC03(c *Ctx) {
 	}
 	c03NewEventKey(c, p)
 	c03AltPrefix(c, p)
+	checkChunkOwnership(c, p, "C03-R7")
 	c.extra["key_tables"] = map[string]interface{}{"entries": len(kt.tables), "registrar_calls_folded_max": kt.regSites, "capability_fields_read": len(kt.fieldsRead)}
 }
 
